@@ -38,19 +38,18 @@ def plan(ctx):
         bfs('bfs1-o1-full', MaxLen=1, Orders=frozenset({1}), Alpha='full')
         bfs('bfs1-o234', MaxLen=1, Orders=frozenset({2, 3, 4}), Alpha='tiny')
         bfs('bfs2-op', MaxLen=2, OpDims=frozenset({1, 2}), Alpha='tiny')
-        sim('sim-t', 100, Orders=allo, NSeeds=2, NInit=1)
-        sim('sim-op', 25, OpDims=frozenset({1, 2, 3}), NSeeds=2, NInit=2, MaxLen=6)
+        sim('sim-t', 100, Orders=allo, NSeeds=1, NInit=1)
+        sim('sim-op', 25, OpDims=frozenset({1, 2, 3}), NSeeds=1, NInit=2, MaxLen=6)
     else:
         bfs('bfs2-o1', MaxLen=2, Orders=frozenset({1}), Alpha='small', NInit=2)
-        bfs('bfs2-o2', MaxLen=2, Orders=frozenset({2}), Alpha='tiny', NInit=2, workers=4)
-        bfs('bfs1-o12-full', MaxLen=1, Orders=frozenset({1, 2}), Alpha='full', workers=4)
-        bfs('bfs1-o3-small', MaxLen=1, Orders=frozenset({3}), Alpha='small', workers=4)
-        bfs('bfs2-o3', MaxLen=2, Orders=frozenset({3}), Alpha='tiny', workers=4)
+        bfs('bfs2-o2', MaxLen=2, Orders=frozenset({2}), Alpha='tiny', workers=4)
+        bfs('bfs1-o12-full', MaxLen=1, Orders=frozenset({1, 2}), Alpha='full', workers=3)
+        bfs('bfs1-o3-small', MaxLen=1, Orders=frozenset({3}), Alpha='small', workers=3)
         bfs('bfs1-o4', MaxLen=1, Orders=frozenset({4}), Alpha='tiny', NInit=2)
         bfs('bfs2-op', MaxLen=2, OpDims=frozenset({1, 2, 3}), Alpha='tiny', NInit=2, workers=3)
         for k in range(4):
-            sim('sim-t%d' % k, 400, Orders=allo, NSeeds=3, NInit=2, workers=3, Salt=1 + (ctx.seed + 37 * k) % 200)
-        sim('sim-op', 300, OpDims=frozenset({1, 2, 3}), NSeeds=3, NInit=3, MaxLen=6)
+            sim('sim-t%d' % k, 300, Orders=allo, NSeeds=1, NInit=2, workers=4, Salt=1 + (ctx.seed + 37 * k) % 200)
+        sim('sim-op', 200, OpDims=frozenset({1, 2, 3}), NSeeds=1, NInit=3, MaxLen=6, workers=3)
     return runs
 
 
